@@ -95,10 +95,15 @@ Fixpoint map_procs (f : proc -> result proc) (ps : alist proc) : result (alist p
 (* SupvisorsInstanceStatus.update_tick : process.update_times for the processes of the instance *)
 Definition tick_times (j rmt : Z) (p : proc) : result proc := step p (TickTimes j rmt).
 
-(* Context.invalidate_failed, process part for one instance: status.running_processes() are the processes with
-   process.running() and j in running_identifiers; each gets invalidate_identifier(j) *)
+(* Context.invalidate_failed, process part for one instance, two passes:
+   (1) status.running_processes() — the processes with process.running() and j in running_identifiers — get
+       invalidate_identifier(j) (their result feeds the returned set of failed processes);
+   (2) every process of status.processes gets invalidate_identifier(j) again (fix 04680dd: a process STOPPING
+       on the lost instance leaves the running set too). Processes are independent of each other, so the two
+       passes over the process list are the two calls below for each process. *)
 Definition invalidate_proc (j now : Z) (p : proc) : result proc :=
-  if is_running (p_state p) && zmem j (p_running p) then invalidate p j now else Ok p.
+  bind (if is_running (p_state p) && zmem j (p_running p) then invalidate p j now else Ok p)
+       (fun p1 => invalidate p1 j now).
 
 Fixpoint invalidate_failed_ids (c : rctx) (ids : list Z) (iso : bool) (now : Z) : result rctx :=
   match ids with
